@@ -2018,10 +2018,8 @@ int user_parser (char *buff) {
       int num_args = 1;  /* Command args */
       if (s->args)
         {
-          for (int i = 0; i < s->args->size; i++)
-            {
-              push_svalue (&s->args->item[i]);
-            }
+          /* checks that they fit on the value stack */
+          push_some_svalues (s->args->item, s->args->size);
           num_args += s->args->size;
         }
 
